@@ -87,7 +87,7 @@ pub fn c14_slice_borrow_roundtrip() {
     sym::forget(owned);
 }
 
-// @h prop=C14 tier=quick kind=proof inst="SliceRegion<MirrorRegion<u8>> -> SliceRegion<MirrorRegion<u8>>" bounds="item of <=3 symbolic bytes pushed as read item (region-backed) and as borrow_as(&owned) into a second, non-empty region" desc="region-to-region push yields an item equal to x, from both representations"
+// @h memw=4 prop=C14 tier=quick kind=proof inst="SliceRegion<MirrorRegion<u8>> -> SliceRegion<MirrorRegion<u8>>" bounds="item of <=3 symbolic bytes pushed as read item (region-backed) and as borrow_as(&owned) into a second, non-empty region" desc="region-to-region push yields an item equal to x, from both representations"
 #[cfg_attr(kani, kani::proof, kani::unwind(7))]
 pub fn c14_slice_region_to_region() {
     let a = Bytes::<3>::any_len(1);
@@ -127,13 +127,13 @@ pub fn c14_columns_clone_onto_empty() {
     columns_clone_onto(0);
 }
 
-// @h prop=C14 tier=quick kind=proof inst="ReadColumns<MirrorRegion<u8>>" bounds="row of 2 symbolic cells; target of 1 symbolic byte" desc="clone_onto: shorter target"
+// @h memw=6 prop=C14 tier=quick kind=proof inst="ReadColumns<MirrorRegion<u8>>" bounds="row of 2 symbolic cells; target of 1 symbolic byte" desc="clone_onto: shorter target"
 #[cfg_attr(kani, kani::proof, kani::unwind(7))]
 pub fn c14_columns_clone_onto_shorter() {
     columns_clone_onto(1);
 }
 
-// @h prop=C14 tier=quick kind=proof inst="ReadColumns<MirrorRegion<u8>>" bounds="row of 2 symbolic cells; target of 4 symbolic bytes" desc="clone_onto: longer target"
+// @h memw=5 prop=C14 tier=quick kind=proof inst="ReadColumns<MirrorRegion<u8>>" bounds="row of 2 symbolic cells; target of 4 symbolic bytes" desc="clone_onto: longer target"
 #[cfg_attr(kani, kani::proof, kani::unwind(7))]
 pub fn c14_columns_clone_onto_longer() {
     columns_clone_onto(4);
@@ -320,19 +320,19 @@ fn wrapped_encoded(tlen: Option<usize>) {
     sym::forget(code);
 }
 
-// @h prop=C14 tier=quick kind=proof timeout=900 unwindset="from_fn|drop_glue|drop_in_place:258" inst="Wrapped<u8> Huffman-ENCODED item (uniform 2-bit code over the symbols 10..13, table via hook; no B-tree)" bounds="item = 2 code words (4 bits of a symbolic byte)" desc="into_owned decodes exactly the symbols"
+// @h memw=9 prop=C14 tier=quick kind=proof timeout=900 unwindset="from_fn|drop_glue|drop_in_place:258" inst="Wrapped<u8> Huffman-ENCODED item (uniform 2-bit code over the symbols 10..13, table via hook; no B-tree)" bounds="item = 2 code words (4 bits of a symbolic byte)" desc="into_owned decodes exactly the symbols"
 #[cfg_attr(kani, kani::proof, kani::unwind(8))]
 pub fn c14_wrapped_encoded_owned() {
     wrapped_encoded(None);
 }
 
-// @h prop=C14 tier=quick kind=proof timeout=900 unwindset="from_fn|drop_glue|drop_in_place:258" inst="Wrapped<u8> Huffman-ENCODED item" bounds="item = 2 code words; clone_onto target of 1 symbolic byte (shorter)" desc="clone_onto leaves the target equal to into_owned"
+// @h memw=8 prop=C14 tier=quick kind=proof timeout=900 unwindset="from_fn|drop_glue|drop_in_place:258" inst="Wrapped<u8> Huffman-ENCODED item" bounds="item = 2 code words; clone_onto target of 1 symbolic byte (shorter)" desc="clone_onto leaves the target equal to into_owned"
 #[cfg_attr(kani, kani::proof, kani::unwind(8))]
 pub fn c14_wrapped_encoded_clone_onto_shorter() {
     wrapped_encoded(Some(1));
 }
 
-// @h prop=C14 tier=quick kind=proof timeout=900 unwindset="from_fn|drop_glue|drop_in_place:258" inst="Wrapped<u8> Huffman-ENCODED item" bounds="item = 2 code words; clone_onto target of 4 symbolic bytes (longer)" desc="clone_onto leaves the target equal to into_owned whatever it held before"
+// @h memw=8 prop=C14 tier=quick kind=proof timeout=900 unwindset="from_fn|drop_glue|drop_in_place:258" inst="Wrapped<u8> Huffman-ENCODED item" bounds="item = 2 code words; clone_onto target of 4 symbolic bytes (longer)" desc="clone_onto leaves the target equal to into_owned whatever it held before"
 #[cfg_attr(kani, kani::proof, kani::unwind(8))]
 pub fn c14_wrapped_encoded_clone_onto_longer() {
     wrapped_encoded(Some(4));
